@@ -4,6 +4,7 @@ import (
 	"encoding/json"
 	"fmt"
 	"os"
+	"os/exec"
 	"path/filepath"
 	"strconv"
 	"strings"
@@ -493,5 +494,176 @@ func TestC12_Create(t *testing.T) {
 			fmt.Fprintf(&key, "%s\x00%d%v", tx.Tmpl, tx.Budget, tx.Filter)
 		}
 		r.Case(key.String()+strconv.Itoa(c.K), hasMatches && hasBad, map[string]interface{}{"texts": c.Texts, "goroutines": c.K}, fmt.Sprintf("k:%d", c.K), fmt.Sprintf("matches:%v", hasMatches), fmt.Sprintf("invalid-or-exhausted:%v", hasBad))
+	})
+}
+
+// --- cold start --------------------------------------------------------------------------
+//
+// Whatever the library initialises lazily at package level (tables, caches, sync.Once values) is
+// initialised by the FIRST calls in a process; in a server those first calls arrive together.
+// Each case runs in a fresh child process (this test binary re-executed) whose very first use of
+// the library is k goroutines creating evaluators and evaluating quantifiers, membership tests and
+// regular expressions over collections of different sizes at the same time, for a few rounds of
+// growing sizes (each round larger than anything the process has seen). The child then repeats
+// every call sequentially and compares; a crash of the child is a finding as well.
+
+type c12ColdCase struct {
+	Exprs   []string `json:"exprs"`   // %N% is replaced by the goroutine's list length - 1
+	Lengths []int    `json:"lengths"` // one per goroutine (round 0)
+	Rounds  int      `json:"rounds"`
+	Growth  int      `json:"growth"` // lengths are multiplied by growth each round
+}
+
+func c12ColdDatum(n int) interface{} {
+	xs := make([]interface{}, n)
+	names := make([]string, n)
+	for i := range xs {
+		xs[i] = i
+		names[i] = "n" + strconv.Itoa(i)
+	}
+	return map[string]interface{}{"xs": xs, "names": names, "n": n, "m": map[string]interface{}{"k": "v" + strconv.Itoa(n)}}
+}
+
+// TestC12_ColdChild is the child side; it does nothing unless VERIF_COLD_CASE is set.
+func TestC12_ColdChild(t *testing.T) {
+	raw := os.Getenv("VERIF_COLD_CASE")
+	if raw == "" {
+		t.Skip("child of TestC12_ColdStart only")
+	}
+	var c c12ColdCase
+	if err := json.Unmarshal([]byte(raw), &c); err != nil {
+		fmt.Println("COLD-HARNESS bad case:", err)
+		return
+	}
+	type res struct {
+		ok  bool
+		err string
+		pan string
+	}
+	call := func(text string, d interface{}) (r res) {
+		defer func() {
+			if p := recover(); p != nil {
+				r.pan = fmt.Sprint(p)
+			}
+		}()
+		ev, err := bexpr.CreateEvaluator(text)
+		if err != nil {
+			return res{err: "create: " + err.Error()}
+		}
+		ok, eerr := ev.Evaluate(d)
+		if eerr != nil {
+			return res{ok: ok, err: eerr.Error()}
+		}
+		return res{ok: ok}
+	}
+	k := len(c.Lengths)
+	mismatch := ""
+	for round, mult := 0, 1; round < c.Rounds; round, mult = round+1, mult*c.Growth {
+		data := make([]interface{}, k)
+		texts := make([][]string, k)
+		for g := range data {
+			n := c.Lengths[g] * mult
+			data[g] = c12ColdDatum(n)
+			for _, e := range c.Exprs {
+				texts[g] = append(texts[g], strings.ReplaceAll(e, "%N%", strconv.Itoa(n-1)))
+			}
+		}
+		got := make([][]res, k)
+		var wg sync.WaitGroup
+		start := make(chan struct{})
+		for g := 0; g < k; g++ {
+			wg.Add(1)
+			go func(g int) {
+				defer wg.Done()
+				<-start
+				for _, tx := range texts[g] {
+					got[g] = append(got[g], call(tx, data[g]))
+				}
+			}(g)
+		}
+		close(start)
+		wg.Wait()
+		for g := 0; g < k && mismatch == ""; g++ {
+			for i, tx := range texts[g] {
+				if want := call(tx, data[g]); got[g][i] != want {
+					mismatch = fmt.Sprintf("round %d goroutine %d (list of %d): %q gave %+v at the same time as %d other first calls, %+v when repeated alone", round, g, c.Lengths[g]*mult, tx, got[g][i], k-1, want)
+					break
+				}
+			}
+		}
+	}
+	if mismatch != "" {
+		fmt.Println("COLD-MISMATCH " + mismatch)
+		return
+	}
+	fmt.Println("COLD-OK")
+}
+
+func c12ColdRun(t failer, c *c12ColdCase) {
+	raw, _ := json.Marshal(c)
+	cmd := exec.Command(os.Args[0], "-test.run=^TestC12_ColdChild$", "-test.count=1")
+	// the race runtime sleeps a second at exit unless told otherwise
+	cmd.Env = append(os.Environ(), "VERIF_COLD_CASE="+string(raw), "VERIF_STATS_DIR=", "VERIF_REPLAY=", "GORACE="+strings.TrimSpace(os.Getenv("GORACE")+" atexit_sleep_ms=0"))
+	before := raceLogSize()
+	out, err := cmd.CombinedOutput()
+	s := string(out)
+	switch {
+	case strings.Contains(s, "COLD-MISMATCH"):
+		i := strings.Index(s, "COLD-MISMATCH")
+		violation(t, "C12", "TestC12_ColdStart", c, "in a fresh process whose first calls into the library run concurrently: %s", clip(s[i:], 1500))
+	case strings.Contains(s, "DATA RACE") || raceLogSize() > before:
+		violation(t, "C12", "TestC12_ColdStart", c, "the race detector reported a data race among the first concurrent calls of a fresh process\n%s%s", clip(s, 1500), raceLogTail())
+	case strings.Contains(s, "fatal error:") || strings.Contains(s, "panic:"):
+		violation(t, "C12", "TestC12_ColdStart", c, "a fresh process crashed when its first calls into the library ran concurrently:\n%s", clip(s, 2000))
+	case strings.Contains(s, "COLD-OK"):
+	default:
+		t.Fatalf("harness: cold-start child did not report (err %v): %s", err, clip(s, 800))
+	}
+}
+
+func init() {
+	replayers["TestC12_ColdStart"] = func(t *testing.T, raw json.RawMessage) {
+		var c c12ColdCase
+		if err := json.Unmarshal(raw, &c); err != nil {
+			t.Fatalf("bad case: %v", err)
+		}
+		for i := 0; i < 40; i++ {
+			c12ColdRun(t, &c)
+		}
+		t.Logf("replay ok")
+	}
+}
+
+func TestC12_ColdStart(t *testing.T) {
+	r := rec(t, "C12", c12Rule+"; TestC12_ColdStart: every case in a fresh child process whose first use of the library is 2-8 goroutines creating evaluators and evaluating quantifiers / membership / regular expressions over lists of different lengths (5..6400) at once, 1-4 rounds of growing lengths, then repeated sequentially; non-trivial = lengths spread over >= 2 powers of two")
+	exprs := []string{
+		`any xs as x { x == %N% }`,
+		`all xs as i, v { v != -1 }`,
+		`any names as nm { nm matches "^n%N%$" }`,
+		`%N% in xs`,
+		`"n%N%" in names and m.k != ""`,
+		`all xs as i { i != %N% } or n == 0`,
+		`any xs as _, v { v == %N% } and not (xs is empty)`,
+	}
+	rapid.Check(t, func(t *rapid.T) {
+		c := &c12ColdCase{Rounds: rapid.IntRange(1, 4).Draw(t, "rounds"), Growth: 2}
+		for i := rapid.IntRange(1, 3).Draw(t, "nexprs"); i > 0; i-- {
+			c.Exprs = append(c.Exprs, exprs[rapid.IntRange(0, len(exprs)-1).Draw(t, "expr")])
+		}
+		k := rapid.IntRange(2, 8).Draw(t, "k")
+		base := []int{5, 8, 20, 33, 50}[rapid.IntRange(0, 4).Draw(t, "base")]
+		buckets := map[int]bool{}
+		for g := 0; g < k; g++ {
+			// a long list and shorter ones: half, a third, a tenth ...
+			n := base * []int{1, 2, 2, 3, 4, 8, 16}[rapid.IntRange(0, 6).Draw(t, "factor")]
+			c.Lengths = append(c.Lengths, n)
+			b := 0
+			for 1<<b < n {
+				b++
+			}
+			buckets[b] = true
+		}
+		c12ColdRun(t, c)
+		r.Case(fmt.Sprint(c.Exprs, c.Lengths, c.Rounds, c.Growth), len(buckets) >= 2, c, fmt.Sprintf("k:%d", k), fmt.Sprintf("rounds:%d", c.Rounds))
 	})
 }
